@@ -24,6 +24,8 @@ type vpConn struct {
 	dieAfter  int // server closes the connection after this many requests (0: never)
 	answer    int // number of requests answered before dying (only with dieAfter > 0)
 	srvClosed bool
+	stall     bool          // the server reads but never answers
+	delay     time.Duration // the server answers this much later
 	closed    int
 	closeCh   chan struct{}
 }
@@ -75,8 +77,19 @@ func (c *vpConn) Write(b []byte) (int, error) {
 			j++
 		}
 		path := string(req[4:j])
-		if c.dieAfter == 0 || c.requests <= c.answer {
-			c.in <- []byte("HTTP/1.1 200 OK\r\nContent-Length: " + c07Digits(len(path)) + "\r\n\r\n" + path)
+		if !c.stall && (c.dieAfter == 0 || c.requests <= c.answer) {
+			resp := []byte("HTTP/1.1 200 OK\r\nContent-Length: " + c07Digits(len(path)) + "\r\n\r\n" + path)
+			if c.delay > 0 {
+				d := c.delay
+				go func() {
+					time.Sleep(d)
+					if !c.srvClosed && c.closed == 0 {
+						c.in <- resp
+					}
+				}()
+			} else {
+				c.in <- resp
+			}
 		}
 		if c.dieAfter > 0 && c.requests >= c.dieAfter && !c.srvClosed {
 			c.srvClosed = true
@@ -155,4 +168,88 @@ func vhC04Pipeline() {
 		}
 		vAssert("healthy-server-answers-every-call", all)
 	}
+}
+
+
+// C38 — PipelineClient deadline calls return on time with bounded queues.
+//
+// The same reactive server, now also stalling (reads, never answers) or
+// answering late; calls with and without a deadline through a PipelineClient
+// with a small MaxPendingRequests, on the engine's virtual clock: a deadline
+// call returns by its deadline with its own response, ErrTimeout or a
+// connection error, and a call refused with ErrPipelineOverflow never had its
+// request on the wire.
+func vhC38Deadlines() {
+	K := vParam("calls", 3)
+	const T = 100 * time.Millisecond
+	mode := vChoose("server", 4) // answers, stalls, answers after 150 ms, closes after the first request
+	var conns []*vpConn
+	pc := &PipelineClient{Addr: "a.co:80", MaxConns: 1, MaxPendingRequests: 1 + vChoose("maxPending", 2), MaxBatchDelay: time.Millisecond}
+	pc.Dial = func(addr string) (net.Conn, error) {
+		c := newVpConn(len(conns))
+		switch mode {
+		case 1:
+			c.stall = true
+		case 2:
+			c.delay = 150 * time.Millisecond
+		case 3:
+			if len(conns) == 0 {
+				c.dieAfter = 1
+			}
+		}
+		conns = append(conns, c)
+		return c, nil
+	}
+	type out struct {
+		err      error
+		body     string
+		elapsed  time.Duration
+		deadline bool
+	}
+	res := make([]out, K)
+	done := make(chan int, K)
+	start := time.Now()
+	for i := 0; i < K; i++ {
+		i := i
+		// calls without a deadline only against servers that answer (late) or close
+		withDeadline := mode == 1 || vBool("withDeadline")
+		go func() {
+			var req Request
+			var resp Response
+			req.SetRequestURI("http://a.co/q" + c07Digits(i))
+			var err error
+			if withDeadline {
+				err = pc.DoTimeout(&req, &resp, T)
+			} else {
+				err = pc.Do(&req, &resp)
+			}
+			res[i] = out{err, string(resp.Body()), time.Since(start), withDeadline}
+			done <- i
+		}()
+	}
+	for i := 0; i < K; i++ {
+		<-done
+	}
+	onTime, own, quiet := true, true, true
+	for i, r := range res {
+		if r.deadline && r.elapsed > T+5*time.Millisecond {
+			onTime = false
+		}
+		if r.err == nil && r.body != "/q"+c07Digits(i) {
+			own = false
+		}
+		if r.err == ErrPipelineOverflow {
+			for _, c := range conns {
+				if vcContains(c.wrote, "/q"+c07Digits(i)+" ") {
+					quiet = false
+				}
+			}
+		}
+	}
+	vAssert("deadline-calls-return-by-their-deadline", onTime)
+	vAssert("successful-calls-carry-their-own-response", own)
+	vAssert("overflowed-calls-were-never-transmitted", quiet)
+	// requests that timed out stay queued until the connection makes progress;
+	// the queues themselves are bounded by MaxPendingRequests
+	vAssert("pending-requests-are-bounded", pc.PendingRequests() <= 2*pc.MaxPendingRequests+K)
 }
